@@ -628,7 +628,7 @@ func (l *Linter) check(
 		}
 	}
 
-	all = l.filterErrors(all, cfg.PathConfigs(path))
+	all = l.filterErrors(all, cfg.PathConfigs(l.pathFromProjectRoot(path, project)))
 
 	for _, err := range all {
 		err.Filepath = path // Populate filename in the error
@@ -642,6 +642,25 @@ func (l *Linter) check(
 	}
 
 	return all, nil
+}
+
+// pathFromProjectRoot returns the given file path as a path relative to the root directory of the
+// project. Glob patterns in "paths" of the configuration file are matched against this path so
+// that the result does not depend on the current working directory nor on how the path was
+// specified (absolute, relative, with "./" prefix). When it cannot be calculated, the given path
+// is returned as-is.
+func (l *Linter) pathFromProjectRoot(path string, project *Project) string {
+	if project == nil {
+		return path
+	}
+	p := path
+	if !filepath.IsAbs(p) {
+		p = filepath.Join(l.cwd, p)
+	}
+	if r, err := filepath.Rel(project.RootDir(), absPath(p)); err == nil {
+		return r
+	}
+	return path
 }
 
 func (l *Linter) filterErrors(errs []*Error, cfgs []PathConfig) []*Error {
